@@ -35,6 +35,15 @@ CHECKS = {
  "C19": dict(cat="proof", ref="DESIGN.md section 7 C19; notes/C19.md",
    text="Coq theorems over all registration histories: a heap model of to_filterable_hook (closures, decorators, function attributes sharing FilterSet objects) refines a value-semantics specification in which every hook carries exactly the filters chained in its own registration expression, for both decorator forms; unfiltered hooks apply everywhere; unregistration removes exactly that hook; all scopes are applied in order; auth providers carry their own filters. The pre-fix behaviour is kept as a second model with a refutation witness (regression sentinel). Four further findings (case-level hooks ignore filters, filter_used leak, rejected registration keeps its filters, one filter set per function object) are refuted by witness and recorded. Tied to /repo per run by executing generated histories on real HookDispatcher / AuthStorage objects and by real data generation with hooks at several scopes.",
    note="Trusted: Coq kernel+vm_compute; hand-written Model_C19.v; regex and user predicates are opaque truth tables. Not covered: stale saved proxies, caching auth providers, GraphQL call sites, pytest/CLI hook loading, thread safety of registration."),
+ "C03": dict(cat="proof", ref="DESIGN.md section 7 C03; notes/C03.md",
+   text="Coq theorems over all integer schemas / key orders / operation shapes: every non-authored value of the positive numeric boundary plan is valid and every numeric negative violates its keyword outside executable regions, with machine-checked counterexamples inside them (7 recorded findings: maximum 0 treated as absent, boolean exclusive bounds used as numbers, unsatisfiable ranges, numeric exclusive bound overriding a stricter inclusive one, body cases after the first inheriting the first value's label, a negative first value ending up in the positive template, anyOf/oneOf siblings not consulted); requested string lengths and array sizes lie inside the declared range for satisfiable ranges; the case-level label is negative iff a part is negative or the case is a method/duplicate/missing-required case, except for body tails (exact shape of that defect proved). Tied to /repo per run by exact comparison of cover_schema_iter value lists, the generate_from_schema requests of the string/array planners, and kind/mode/components/content of every case yielded by _iter_coverage_cases; a python-jsonschema oracle validates every yielded value against its label.",
+   note="Trusted: Coq kernel+vm_compute; hand-written Model_C03.v; python-jsonschema as judge. Partial: floats, objects, enum/const/pattern/format negatives, allOf have no theorem (oracle only); the serialisation of coverage cases is not modelled."),
+ "C07": dict(cat="proof", ref="DESIGN.md section 7 C07; notes/C07.md",
+   text="Coq theorems over all filter sets and all documents of the fragment: FilterSet.match is exactly (no include or some include matches) and no exclude matches, independent of set order; get_all_operations offers exactly the lower-case-method entries whose resolved definition matches, once, in document order; non-method keys are never operations and do not influence any count; the statistic equals what is offered when filters do not depend on reference resolution (refuted otherwise: statistics are evaluated on the raw definition); every state-machine transition starts and ends at a selected operation; duplicate-filter rejection, method case-insensitivity, CLI option translation. Four recorded findings (statistic on raw definitions, duplicated operationId links, lazy fixtures dropping the fixture's filters, operationRef to a non-method key). Tied to /repo per run through real schema objects (include/exclude, statistic, get_all_operations, as_state_machine), a real pytest session for lazy fixtures and engine runs counting requests per operation at a loopback API.",
+   note="Trusted: Coq kernel+vm_compute; hand-written Model_C07.v; the schema's own reference resolver supplies (raw, resolved) pairs. Not covered: GraphQL (C20), Err results of get_all_operations, compiled regex arguments, concurrency of the shared filter context cache."),
+ "C17": dict(cat="proof", ref="DESIGN.md section 7 C17; notes/C17.md",
+   text="Coq theorems over all example lists and schema fragments: every example occurs unchanged in some produced combination, nothing is invented, the number of combinations is the largest per-parameter example count, no examples means no cases, explicit values are never overwritten by generated fill-ins and required inputs are filled (generator as a function argument with its contract), branch- and self-level examples are extracted; dropping of examples is reported outside the refuted region (InvalidSchema / reference errors are swallowed silently). Six recorded findings with witnesses (silent drop, OpenAPI 2.0 allOf x-examples, nested composition, properties under composition, lookup by name only, path examples not percent-encoded). Tied to /repo per run by exact comparison on produce_combinations, _expand_subschemas, extract_from_schema, extract_top_level, extract_inner_examples, get_parameters_value and add_examples, and by an oracle that plants examples at every placement in generated documents and watches an examples-only engine run at a loopback API.",
+   note="Trusted: Coq kernel+vm_compute; hand-written Model_C17.v; hypothesis-jsonschema generator as contract. Not covered: response-derived examples, externalValue, form/multipart bodies, overrides and hooks."),
 }
 
 NOT_YET = {
